@@ -127,6 +127,109 @@ func sharedAccessFacts(repo string) ([]string, error) {
 	return out, nil
 }
 
+// stateOwnershipFacts: the getSearchState/putSearchState protocol modelled by Cx.State.Pool assumes that a state is put
+// back exactly by the call that took it.  Fact = a putSearchState(x) call (also deferred) for which no statement list
+// enclosing the call contains, before it, the assignment x := recv.getSearchState() — i.e. the state was borrowed from a
+// caller (a parameter) or taken in a nested branch only, and is returned to the pool while the owner still uses it.
+func stateOwnershipFacts(repo string) ([]string, error) {
+	var facts []string
+	fs := token.NewFileSet()
+	pkgs, err := parser.ParseDir(fs, filepath.Join(repo, "meta"), func(fi os.FileInfo) bool {
+		return !strings.HasSuffix(fi.Name(), "_test.go") && !strings.HasSuffix(fi.Name(), "_verif.go")
+	}, 0)
+	if err != nil {
+		return nil, err
+	}
+	isCall := func(e ast.Expr, name string) (*ast.CallExpr, bool) {
+		c, ok := e.(*ast.CallExpr)
+		if !ok {
+			return nil, false
+		}
+		sel, ok := c.Fun.(*ast.SelectorExpr)
+		return c, ok && sel.Sel.Name == name
+	}
+	for _, pkg := range pkgs {
+		for _, f := range pkg.Files {
+			for _, decl := range f.Decls {
+				fd, ok := decl.(*ast.FuncDecl)
+				if !ok || fd.Body == nil || fd.Name.Name == "putSearchState" || fd.Name.Name == "getSearchState" {
+					continue
+				}
+				fn := fd.Name.Name
+				var walk func(list []ast.Stmt, owned map[string]bool)
+				checkExpr := func(n ast.Node, owned map[string]bool) {
+					ast.Inspect(n, func(x ast.Node) bool {
+						if _, isLit := x.(*ast.FuncLit); isLit {
+							return false
+						}
+						if c, ok := x.(ast.Expr); ok {
+							if call, ok := isCall(c, "putSearchState"); ok && len(call.Args) == 1 {
+								if id, ok := call.Args[0].(*ast.Ident); ok && !owned[id.Name] {
+									facts = append(facts, fmt.Sprintf("meta.%s: putSearchState(%s) at %s returns a state this call did not take (no %s := getSearchState() in an enclosing statement list before it)",
+										fn, id.Name, fs.Position(call.Pos()).String()[len(repo)+1:], id.Name))
+								}
+							}
+						}
+						return true
+					})
+				}
+				walk = func(list []ast.Stmt, owned map[string]bool) {
+					mine := map[string]bool{}
+					for k, v := range owned {
+						mine[k] = v
+					}
+					for _, st := range list {
+						switch x := st.(type) {
+						case *ast.AssignStmt:
+							for i, rhs := range x.Rhs {
+								if _, ok := isCall(rhs, "getSearchState"); ok && i < len(x.Lhs) {
+									if id, ok := x.Lhs[i].(*ast.Ident); ok {
+										mine[id.Name] = true
+									}
+								}
+							}
+							checkExpr(x, mine)
+						case *ast.BlockStmt:
+							walk(x.List, mine)
+						case *ast.IfStmt:
+							if x.Init != nil {
+								checkExpr(x.Init, mine)
+							}
+							walk(x.Body.List, mine)
+							if x.Else != nil {
+								walk([]ast.Stmt{x.Else}, mine)
+							}
+						case *ast.ForStmt:
+							walk(x.Body.List, mine)
+						case *ast.RangeStmt:
+							walk(x.Body.List, mine)
+						case *ast.SwitchStmt:
+							for _, c := range x.Body.List {
+								walk(c.(*ast.CaseClause).Body, mine)
+							}
+						case *ast.TypeSwitchStmt:
+							for _, c := range x.Body.List {
+								walk(c.(*ast.CaseClause).Body, mine)
+							}
+						case *ast.SelectStmt:
+							for _, c := range x.Body.List {
+								walk(c.(*ast.CommClause).Body, mine)
+							}
+						case *ast.LabeledStmt:
+							walk([]ast.Stmt{x.Stmt}, mine)
+						default:
+							checkExpr(st, mine)
+						}
+					}
+				}
+				walk(fd.Body.List, map[string]bool{})
+			}
+		}
+	}
+	sort.Strings(facts)
+	return facts, nil
+}
+
 var c06Templates = []string{`foo.*?bar`, `\d+`, `[a-z]+[0-9]+`, `(foo|bar|baz)qux`, `^(\d+|UUID|hex32)`, `.*\.txt$`, `\w+@\w+\.com`, `(?i)hello`, `error|warning|fatal`,
 	`\d{1,3}\.\d{1,3}`, `(?m)^/.*\.php`, `.*error.*`, `^/api/.*\.json$`, `a(b|c)*d`, `[^,]+,`, `(\w+)\s(\w+)`, `x*`, `hello`, `\bfoo\b`, `.*\.(txt|log|md)`, `^/.*\.php`,
 	`(a|ab)(c|bcd)(d*)`, `[a-z]+connection[a-z]+`, `(?s)a.+b`, `\b\w+\b`}
@@ -228,6 +331,25 @@ func checkC06(r *Report, known []Finding) {
 			map[string]any{"fact": f, "explanation": "a method of a shared object (Engine / searcher / DFA) uses a simulator or buffer with embedded scratch state; two concurrent calls race on it"}, false)
 	}
 	r.Evaluations += len(facts)
+	// ---- (a') ownership facts: hypothesis of the pool protocol model (a state is returned by the call that took it)
+	own, err := stateOwnershipFacts("/repo")
+	if err != nil {
+		r.Violate("ownership-fact extraction failed: "+err.Error(), map[string]any{"check": "go/ast fact extractor"}, true)
+		return
+	}
+	to := r.Tie("source facts: every putSearchState(x) is preceded, in an enclosing statement list, by x := getSearchState()")
+	to.Cases += 40
+	r.Extra["state_ownership_facts"] = own
+	for _, f := range own {
+		to.Disagreements++
+		attrs := map[string]string{"site": f[:strings.Index(f, ":")], "kind": "borrowed-state-put"}
+		if kf := matchKnown(known, "C06", attrs); kf != nil {
+			r.Known(kf, map[string]string{"fact": f})
+			continue
+		}
+		r.Violate("per-search state returned to the pool by a call that does not own it: "+f,
+			map[string]any{"fact": f, "explanation": "the caller keeps using the state after it was reset and handed to the pool; the next goroutine's getSearchState receives the same SearchState (Cx.State.Pool: the 'held' list would contain it twice)"}, false)
+	}
 	// ---- (b) dynamic: race build
 	bin := filepath.Join(verifDir, ".build", "vcheck-race")
 	cmd := exec.Command("go", "build", "-race", "-tags", "verif", "-o", bin, "./cmd/vcheck")
